@@ -343,7 +343,7 @@ fn fuzz_campaign(def: &'static props::PropDef, seed: u64, total: &mut ShardSumma
     let _ = std::fs::remove_dir_all(&run_root);
     let procs = 8usize;
     let runs_total: u64 = std::env::var("VERIF_FUZZ_RUNS").ok().and_then(|v| v.parse().ok()).unwrap_or(match id {
-        "C11" => 400_000,
+        "C01" | "C11" => 400_000,
         _ => 2_000_000,
     });
     let mut children = vec![];
@@ -383,7 +383,10 @@ fn fuzz_campaign(def: &'static props::PropDef, seed: u64, total: &mut ShardSumma
     engine::proc::install_panic_hook();
     let known = engine::load_known();
     for (k, mut c) in children {
+        let pid = c.id();
         let st = c.wait();
+        // targets that need a file tree work in a private tmpfs directory named after their pid
+        let _ = std::fs::remove_dir_all(format!("/dev/shm/verif-fuzz-{id}-{pid}"));
         let dir = run_root.join(format!("p{k}"));
         let log = std::fs::read_to_string(dir.join("log")).unwrap_or_default();
         for l in log.lines() {
